@@ -22,6 +22,9 @@ DEADLINE_KEY = b'com.twitter.finagle.Deadline'
 CLIENTID_KEY = b'com.twitter.finagle.thrift.ClientIdContext'
 
 
+SMALL_IO = [None, None]      # (bytes per recv call, bytes per send call) the simulated kernel moves at most; None = unlimited
+
+
 class ScriptPeer(object):
   """Mux peer: answers Tping; records every frame; replies to dispatches are produced by the harness."""
   ordered = False
@@ -60,6 +63,7 @@ class Chain(object):
     from scales.thriftmux.sink import ClientIdInterceptorSink, ThriftMuxMessageSerializerSink, SocketTransportSink
     self.lp = vloop.loop()
     self.net = simnet.new_net()
+    self.net.max_recv, self.net.max_send = SMALL_IO
     self.H = hello()
     world.SHIMS['thriftmux'].randint_domain = lambda a, b: [a]
     self.net.add_endpoint('h0', 1000, lambda net, c: ScriptPeer(net, c))
@@ -277,6 +281,31 @@ def check_requests_debug_logging():
     v['message'] = 'with DEBUG logging enabled: ' + v['message']
   res['sample'] = {'debug_logging_cases': res['n']}
   return res
+
+
+def check_small_io():
+  """The same frames when the kernel moves only a few bytes per call: recv hands out at most 3 bytes, send() takes at most 7
+  (sendall loops): requests, discards and every reply shape once more."""
+  out = {'n': 0, 'keys': 0, 'viol': [], 'sample': {'small_io': [3, 7]}}
+  SMALL_IO[:] = [3, 7]
+  parts = []
+  try:
+    for fn, args in ((check_requests, ([None, 'c'], [{}, {'a': 'x'}, {'é': '日本'}], [None, 0.5025], ARGS)), (check_discards, (6,)),
+                     (check_replies, ())):
+      try:
+        parts.append(fn(*args))
+      except Exception as e:  # noqa  (e.g. the transport never gets through its handshake and the harness cannot go on)
+        parts.append({'n': 1, 'keys': 1, 'viol': [{'clause': 'C13.framing', 'sig': {'small_io': True},
+                                                   'message': '%s could not be carried out: %s: %s' % (fn.__name__, type(e).__name__, str(e)[:200])}]})
+  finally:
+    SMALL_IO[:] = [None, None]
+  for r in parts:
+    out['n'] += r['n']
+    out['keys'] += r['keys']
+    for v in r['viol']:
+      v['message'] = 'with at most 3 bytes per recv and 7 per send: ' + v['message']
+      out['viol'].append(v)
+  return out
 
 
 def check_unencodable():
@@ -597,6 +626,7 @@ def main(tier, seed):
     out.append(explore.pmap('vt.checks.c13', 'check_unencodable', [()], pool, seed)[0])
     out.append(explore.pmap('vt.checks.c13', 'check_redispatch', [()], pool, seed)[0])
     out.append(explore.pmap('vt.checks.c13', 'check_requests_debug_logging', [()], pool, seed)[0])
+    out.append(explore.pmap('vt.checks.c13', 'check_small_io', [()], pool, seed)[0])
     nreq = sum(o['n'] for o in out)
     rep.part('frames through the real sinks', engine='E', cases=nreq, context_dicts=len(ctxs), client_ids=CLIENT_IDS,
              deadlines=deadlines, strings=[s[:8] for s in STRS])
